@@ -287,7 +287,7 @@ pub fn run(ctx: &mut Ctx) {
                 // two keys, interleaved; values chosen so that maxima change
                 for pat in 0..(1u32 << n.min(3)) {
                     let items: Vec<(u8, i32)> = (0..n)
-                        .map(|i| (((pat >> i.min(2)) & 1) as u8, [3, 1, 4, 1, 5][i]))
+                        .map(|i| (((pat >> i.min(2)) & 1) as u8, [3, 1, 4, 1, 5, 9, 2, 6][i]))
                         .collect();
                     enumerated.push(SCase { prog, items, tape: None });
                 }
